@@ -13,6 +13,7 @@ import StepModel.GenCxxAgree
 import StepModel.GenCxxDedup
 import StepModel.GenCxxDeriveFull
 import StepModel.GenCxxRedefFull
+import StepModel.GenCxxHeadKey
 /-!
 # C02 — generated dictionary and classes mirror the EXPRESS schema
 
@@ -715,6 +716,21 @@ theorem C02_flags_derive_full {s : Schema} {rank : String → Nat} (wf : WF s ra
     rw [hF] at hk hid hsa ⊢
     exact flags_derive_full wf rr r1 C02_dedup_keeps_derivation (fuelOf s - 1) n e hE hk id hid a hsa
 
+/-- The attributes on a fresh instance's list are told apart by (owner, registered name) — `HeadKeyInj`, the hypothesis of the
+    flag theorems — for every schema with distinct entity names and, within each entity, distinct registered attribute names
+    (`AttrKeysDistinct`, decidable), for every supertype graph: the list has no descriptor twice (`C02_attr_nodup`) and every
+    descriptor on it is an own attribute of an entity of the schema. -/
+theorem C02_head_keys_distinct {s : Schema} (hn : (s.entities.map (·.name)).Nodup) (hk : AttrKeysDistinct s) (f : Nat) (n : String) :
+    HeadKeyInj (ctorNF s f n {}) :=
+  headKeyInj_of_schema hn hk (fun f n => C02_attr_nodup s f n [] List.nodup_nil) f n
+
+/-- `C02_flags_derive_full` with hypotheses on the schema only (all decidable but `WF`). -/
+theorem C02_flags_derive_full_schema {s : Schema} {rank : String → Nat} (wf : WF s rank) (rr : RedeclResolves s)
+    (r1 : RedeclNamesOneLine s) (hn : (s.entities.map (·.name)).Nodup) (hk : AttrKeysDistinct s)
+    (n : String) (e : Entity) (hE : s.findE n = some e) (l : List (SA × Bool × Bool)) (hl : instanceFlags s n = some l) :
+    ∀ a d r, (a, d, r) ∈ l → (d = true ↔ derivedIn s (fuelOf s) n a.name a.owner = true) :=
+  C02_flags_derive_full wf rr r1 n e hE (C02_head_keys_distinct hn hk (fuelOf s) n) l hl
+
 /-- A derivation on a NON-principal path reaches the instance (since fix C02-11): `u SUBTYPE OF (c, b)`, `b` redeclares `SELF\a.x`
     as derived.  The part constructor of `b` marks its own copy of `a.x`, which the head rejected as a duplicate — but the
     constructor of `u` itself is given `MakeDerived( "x", "a" )` (`C02_derived_calls_any_supertype_path`) and marks the head's.
@@ -1072,7 +1088,7 @@ example : (exDiamond.entities.map (·.name)).Nodup := by decide
 
 /-- the hypotheses of `C02_flags_derive_full` / `C02_derived_calls_closed_form` hold on the diamond, and the closed form says what
     the instance shows: `a.x` (derived by `b`) is named, `a.y` (explicitly redeclared by `c`) is not -/
-example : RedeclResolves exDiamond ∧ RedeclNamesOneLine exDiamond ∧
+example : RedeclResolves exDiamond ∧ RedeclNamesOneLine exDiamond ∧ AttrKeysDistinct exDiamond ∧
     derivedIn exDiamond (fuelOf exDiamond) "d" "x" "a" = true ∧ derivedIn exDiamond (fuelOf exDiamond) "d" "y" "a" = false := by
   decide
 
